@@ -29,6 +29,7 @@ func (e *Endpoint) Close() (err error) {
 	if err = e.close(); err != nil {
 		return err
 	}
+	verifYield("mux.ep.closing")
 
 	e.mux.RemoveEndpoint(e)
 
